@@ -16,7 +16,8 @@ L3 == {"ok1", "self", "raise"}
 L4 == {"ok1", "ok2", "self", "other"}
 L5 == {"ok1", "ok2", "self", "other", "raise"}
 LAdd == {"ok1", "adder", "late"}
-L7 == {"ok1", "ok2", "self", "other", "raise", "adder", "late"}
+L7 == {"ok1", "ok2", "self", "other", "raise", "adder", "late", "killer"}
+LKill == {"ok1", "self", "killer"}
 N1 == {"EVA"}
 N2 == {"EVA", "EVB"}
 K2 == {"plain", "cb"}
